@@ -84,6 +84,11 @@ pub enum Pat {
     Objs,
     Alt,
     Clos,
+    /// `Alt` / `Clos` rotated left by three positions: objects (closures) sit at the even positions
+    /// from 0 on, the integer parameters at the end — every position holds an integer under one
+    /// pattern and a block pointer under the other
+    AltRot,
+    ClosRot,
 }
 impl Pat {
     pub fn name(self) -> &'static str {
@@ -92,6 +97,8 @@ impl Pat {
             Pat::Objs => "objs",
             Pat::Alt => "alt",
             Pat::Clos => "clos",
+            Pat::AltRot => "altrot",
+            Pat::ClosRot => "closrot",
         }
     }
 }
@@ -111,8 +118,8 @@ pub fn prelude(types: &[TypeDeclaration], k: usize, pat: Pat, nparams: usize) ->
         let want_obj = match pat {
             Pat::Ints => 0,
             Pat::Objs => 1,
-            Pat::Alt => (i % 2) as u8,
-            Pat::Clos => 2 * (i % 2) as u8,
+            Pat::Alt | Pat::AltRot => (i % 2) as u8,
+            Pat::Clos | Pat::ClosRot => 2 * (i % 2) as u8,
         };
         match want_obj {
             0 => {
@@ -153,6 +160,11 @@ pub fn prelude(types: &[TypeDeclaration], k: usize, pat: Pat, nparams: usize) ->
             }
         }
         i += 1;
+    }
+    if matches!(pat, Pat::AltRot | Pat::ClosRot) && b.ctx.len() >= 4 {
+        let mut order = b.ids();
+        order.rotate_left(3);
+        b.arrange(&order);
     }
     b
 }
@@ -303,11 +315,11 @@ pub fn all_families(cfg: &FamCfg, sink: &mut Sink) {
     let types = std_types();
     let t = &types;
     let wp = cfg.with_print;
-    let pats = [Pat::Ints, Pat::Objs, Pat::Alt, Pat::Clos];
+    let pats = [Pat::Ints, Pat::Objs, Pat::Alt, Pat::Clos, Pat::AltRot, Pat::ClosRot];
 
     // ---- LIT: every boundary literal bound at every environment size --------------------------
     for k in env_sizes(cfg.thorough, cfg.cap.saturating_sub(2)) {
-        for pat in [Pat::Ints, Pat::Alt] {
+        for pat in [Pat::Ints, Pat::Alt, Pat::AltRot] {
             for lit in boundary_literals(cfg.thorough) {
                 sink.offer(|| {
                     let mut b = prelude(t, k, pat, 2);
@@ -327,7 +339,7 @@ pub fn all_families(cfg: &FamCfg, sink: &mut Sink) {
         // `obj0`: the first object of the environment is moved to position 0 before the operation (the
         // registers of variable 0 are what x86-64 borrows for idiv; with `Alt` position 3 — AArch64's
         // borrowed scratch — holds an object already)
-        for (pat, obj0) in [(Pat::Ints, false), (Pat::Alt, false), (Pat::Alt, true), (Pat::Clos, true)] {
+        for (pat, obj0) in [(Pat::Ints, false), (Pat::Alt, false), (Pat::Alt, true), (Pat::Clos, true), (Pat::AltRot, false), (Pat::ClosRot, false)] {
             if obj0 && k < 4 {
                 continue;
             }
@@ -352,7 +364,8 @@ pub fn all_families(cfg: &FamCfg, sink: &mut Sink) {
                                 // swap parameter positions with positions i, j by substitution
                                 let mut order = b.ids();
                                 let pi = order.iter().position(|v| *v == ints[i]).unwrap();
-                                order.swap(0, pi);
+                                let p0pos = order.iter().position(|v| *v == 1).unwrap();
+                                order.swap(p0pos, pi);
                                 let pj = order.iter().position(|v| *v == ints[j]).unwrap();
                                 let p1pos = order.iter().position(|v| *v == 2).unwrap();
                                 if i != j {
@@ -392,9 +405,13 @@ pub fn all_families(cfg: &FamCfg, sink: &mut Sink) {
             continue;
         }
         for sort in SORTS {
+          for ipat in [Pat::Ints, Pat::Alt, Pat::AltRot] {
+            if ipat != Pat::Ints && !cfg.thorough && k != 7 && k != 14 {
+                continue;
+            }
             for zero in [false, true] {
                 for (x, y) in &cmp_vals {
-                    let b0 = prelude(t, k, Pat::Ints, 2);
+                    let b0 = prelude(t, k, ipat, 2);
                     let n = b0.ints().len();
                     for i in positions(n) {
                         for j in positions(n) {
@@ -409,11 +426,12 @@ pub fn all_families(cfg: &FamCfg, sink: &mut Sink) {
                             }
                             let (x, y) = (*x, *y);
                             sink.offer(|| {
-                                let mut b = prelude(t, k, Pat::Ints, 2);
+                                let mut b = prelude(t, k, ipat, 2);
                                 let ints = b.ints();
                                 let mut order = b.ids();
                                 let pi = order.iter().position(|v| *v == ints[i]).unwrap();
-                                order.swap(0, pi);
+                                let p0pos = order.iter().position(|v| *v == 1).unwrap();
+                                order.swap(p0pos, pi);
                                 if !zero {
                                     let pj = order.iter().position(|v| *v == ints[j]).unwrap();
                                     let p1pos = order.iter().position(|v| *v == 2).unwrap();
@@ -424,18 +442,20 @@ pub fn all_families(cfg: &FamCfg, sink: &mut Sink) {
                                     br.lit(if taken { 111 } else { 222 });
                                     epilogue(t, br, wp)
                                 });
-                                case(format!("ifc/{sort:?}/zero{zero}/k{k}/{i}-{j}/{x}_{y}"), t, stmt, vec![], 2, vec![x, y], wp)
+                                let pn = if ipat == Pat::Ints { String::new() } else { format!("{}/", ipat.name()) };
+                                case(format!("ifc/{sort:?}/zero{zero}/k{k}/{pn}{i}-{j}/{x}_{y}"), t, stmt, vec![], 2, vec![x, y], wp)
                             });
                         }
                     }
                 }
             }
+          }
         }
     }
 
     // ---- LET + SWITCH: objects with 0..8 fields, unique and shared, at every environment size --
     for k in env_sizes(cfg.thorough, cfg.cap.saturating_sub(3)) {
-        for pat in [Pat::Ints, Pat::Alt] {
+        for pat in [Pat::Ints, Pat::Alt, Pat::AltRot] {
             for n in 0..=8usize {
                 if k + n + 2 > cfg.cap {
                     continue;
@@ -468,7 +488,7 @@ pub fn all_families(cfg: &FamCfg, sink: &mut Sink) {
     // live (so its block pointers cross the register/spill boundary), unique and shared, with
     // integer and object fields, with and without integer parameters in front ---------------------
     for k in env_sizes(cfg.thorough, cfg.cap.saturating_sub(3)) {
-        for pat in [Pat::Ints, Pat::Objs, Pat::Alt] {
+        for pat in [Pat::Ints, Pat::Objs, Pat::Alt, Pat::AltRot] {
             for nparams in [2usize, 0] {
                 if nparams > k {
                     continue;
@@ -587,7 +607,7 @@ pub fn all_families(cfg: &FamCfg, sink: &mut Sink) {
     for k in env_sizes(cfg.thorough, cfg.cap.saturating_sub(4)) {
         for (tn, tags) in [("Tri", vec!["T0", "T1", "T2"]), ("Quad", vec!["Q0", "Q1", "Q2", "Q3"]), ("List", vec!["Nil", "Cons"])] {
             for (ti, tag) in tags.iter().enumerate() {
-                for pat in [Pat::Ints, Pat::Alt] {
+                for pat in [Pat::Ints, Pat::Alt, Pat::AltRot] {
                     sink.offer(|| {
                         let mut b = prelude(t, k, pat, 2);
                         let decl = find_type(t, tn);
@@ -758,7 +778,7 @@ pub fn all_families(cfg: &FamCfg, sink: &mut Sink) {
         }
     }
     for k in env_sizes(cfg.thorough, cfg.cap.saturating_sub(2)) {
-        for pat in [Pat::Ints, Pat::Alt] {
+        for pat in [Pat::Ints, Pat::Alt, Pat::AltRot, Pat::ClosRot] {
             sink.offer(|| {
                 let b = prelude(t, k, pat, 2);
                 // callee takes the environment reversed
